@@ -277,6 +277,8 @@ structure Local where
   emitted : List Item := []
   /-- an action Python would have answered with an exception (releasing a lock that is not held, …) -/
   fault : Bool := false
+  /-- an operation was left by a Python exception the caller sees (`KeyError` for an unknown task id) -/
+  raised : Bool := false
 deriving Repr
 
 structure Shared where
@@ -319,7 +321,7 @@ def exec (cfg : Cfg) (t : Nat) (sh : Shared) (l : Local) : Act → Option (Share
   | .acq lk =>
     match sh.owner lk with
     | none => some ({ sh with owner := updLock sh.owner lk (some t) }, { l with held := lk :: l.held })
-    | some u => if u = t then some (sh, { l with held := lk :: l.held }) else none
+    | some u => if u = t then some ({ sh with owner := updLock sh.owner lk (some t) }, { l with held := lk :: l.held }) else none
   | .rel lk =>
     if lk ∈ l.held then
       let held := l.held.erase lk
@@ -362,7 +364,7 @@ def exec (cfg : Cfg) (t : Nat) (sh : Shared) (l : Local) : Act → Option (Share
   | .advance id n =>
     match findTask sh.tasks id with
     | some tk => some ({ sh with tasks := replaceTask sh.tasks { tk with completed := tk.completed + n } }, l)
-    | none => some (sh, { l with fault := true })
+    | none => some (sh, { l with cont := [ga (.rel .live)], raised := true })   -- KeyError leaves the `with self._lock:` block
 
 /-- One step of thread `t`: load the next operation, skip an action whose guard is off, or perform the
 action.  `none`: the thread is finished or blocked on a lock. -/
